@@ -174,3 +174,15 @@ Example c41_link_nonvacuous :
   let c := CSeq Seq [Gen; Save; Gen; LoadSaved 0; Gen] [OId 1; OSaved (save_bytes 1); OId 2; OOk; OId 2] [1] in
   wf_case c = true /\ check_case c = true /\ holds_on c = true.
 Proof. vm_compute. repeat split. Qed.
+
+(** The headline statement under its DESIGN name: every ID handed out — by any
+    number of concurrent callers in any interleaving, fewer than 2^64 calls from a
+    fresh generator — is nonzero and distinct from every other one. *)
+Theorem c41_unique_nonzero : forall sched, N.of_nat (length sched) < two64 ->
+  let s := crun Atomic (cinit 0) sched in
+  NoDup (ids s) /\ Forall (fun x => x <> 0) (ids s).
+Proof.
+  intros sched H s.
+  destruct (c41_concurrent_unique_nonzero 0 sched) as [A [B _]]; [lia|]. split; assumption.
+Qed.
+Print Assumptions c41_unique_nonzero.
